@@ -224,3 +224,73 @@ func TestKF_TombstoneConsumesOffset(t *testing.T) {
 		return nil
 	})
 }
+
+func kfReopen(t *testing.T, db *DB, dir string, mode EntryIdxMode, seg int64) (*DB, error) {
+	if err := db.Close(); err != nil {
+		t.Fatal(err)
+	}
+	opt := DefaultOptions
+	opt.Dir = dir
+	opt.SegmentSize = seg
+	opt.EntryIdxMode = mode
+	return Open(opt)
+}
+
+func TestKF_SRemMissingKeyBreaksOpen(t *testing.T) {
+	db, dir := kfOpen(t, HintKeyValAndRAMIdxMode, 4096)
+	defer os.RemoveAll(dir)
+	if err := db.Update(func(tx *Tx) error { return tx.SAdd("b", []byte("s"), []byte("x")) }); err != nil {
+		t.Fatal(err)
+	}
+	if err := db.Update(func(tx *Tx) error { return tx.SRem("b", []byte("missing"), []byte("x")) }); err != nil {
+		t.Skip("SRem of a missing key is refused:", err)
+	}
+	db2, err := kfReopen(t, db, dir, HintKeyValAndRAMIdxMode, 4096)
+	if err != nil {
+		t.Errorf("REPRODUCED: SRem(b, missing, x) committed successfully, then Open fails: %v", err)
+		return
+	}
+	db2.Close()
+}
+
+func TestKF_ListNoOpBreaksOpen(t *testing.T) {
+	db, dir := kfOpen(t, HintKeyValAndRAMIdxMode, 4096)
+	defer os.RemoveAll(dir)
+	if err := db.Update(func(tx *Tx) error { return tx.RPush("b", []byte("l"), []byte("a")) }); err != nil {
+		t.Fatal(err)
+	}
+	// two pops in one transaction: both are validated against the committed list (one element), the second is a no-op at commit time
+	if err := db.Update(func(tx *Tx) error {
+		if _, err := tx.LPop("b", []byte("l")); err != nil {
+			return err
+		}
+		_, err := tx.LPop("b", []byte("l"))
+		return err
+	}); err != nil {
+		t.Skip("second LPop refused:", err)
+	}
+	db2, err := kfReopen(t, db, dir, HintKeyValAndRAMIdxMode, 4096)
+	if err != nil {
+		t.Errorf("REPRODUCED: two LPop of a one-element list committed successfully, then Open fails: %v", err)
+		return
+	}
+	db2.Close()
+}
+
+func TestKF_LRemValueWithSeparator(t *testing.T) {
+	db, dir := kfOpen(t, HintKeyValAndRAMIdxMode, 4096)
+	defer os.RemoveAll(dir)
+	if err := db.Update(func(tx *Tx) error { return tx.RPush("b", []byte("l"), []byte("a|b"), []byte("c")) }); err != nil {
+		t.Fatal(err)
+	}
+	if err := db.Update(func(tx *Tx) error { _, err := tx.LRem("b", []byte("l"), 1, []byte("a|b")); return err }); err != nil {
+		t.Fatal(err)
+	}
+	_ = db.View(func(tx *Tx) error {
+		n, err := tx.LSize("b", []byte("l"))
+		if err != nil || n != 1 {
+			t.Errorf("REPRODUCED: LRem(l, 1, \"a|b\") committed but the list still has %d elements (%v): the applier split the value at its own '|'", n, err)
+		}
+		return nil
+	})
+}
